@@ -133,16 +133,20 @@ class _Exec:
             import redress.budget as mod
             self.obj = mod.Budget(max_retries=cfg["max"], window_s=cfg["W"] * vtime.TICK)
         self.sched = Scheduler({mod.__file__})
-        if not hasattr(self.obj, "_lock"):
-            raise Machinery("component has no _lock attribute to put under scheduler control")
-        self.obj._lock = SchedLock(self.sched)
+        # the instance's lock, whatever it is called: the attribute holding a lock-like object
+        locks = [k for k, v in vars(self.obj).items()
+                 if hasattr(v, "acquire") and hasattr(v, "release") and hasattr(v, "__enter__")]
+        if len(locks) != 1:
+            raise Machinery(f"expected exactly one lock attribute on the component, found {locks}")
+        self.lock_attr = locks[0]
+        setattr(self.obj, self.lock_attr, SchedLock(self.sched))
         self.setup_deadlock = False
         try:
             for op in setup:
                 self.apply(op)
         except Deadlock:
             self.setup_deadlock = True
-            self.obj._lock = SchedLock(self.sched)
+            setattr(self.obj, self.lock_attr, SchedLock(self.sched))
 
     def apply(self, op: dict) -> dict:
         self.now = op["t"]
@@ -181,7 +185,7 @@ class _Exec:
         final: dict = {}
         deadlock = deadlock or self.setup_deadlock
         if not deadlock:
-            self.obj._lock = SchedLock(sched)     # fresh, uncontended, for the observation
+            setattr(self.obj, self.lock_attr, SchedLock(sched))     # fresh, uncontended, for the observation
             tmax = max([op["t"] for p in self.programs for op in p] + [op["t"] for op in self.setup] + [0])
             try:
                 if self.comp == "breaker":
@@ -254,10 +258,6 @@ def _design(tier: str, module: str, base: str) -> int:
     return d.distinct
 
 
-def _ticks(x: float) -> int:
-    return int(round(x / vtime.TICK)) - vtime.BASE_TICKS
-
-
 def _validate_lines(traces: list[dict], algo: str, trace_module: str, rep: Report) -> int:
     import json as _json
     import os
@@ -328,20 +328,17 @@ def line_conformance(tier: str, rep: Report) -> dict:
             for h in _explore_with_clock(make, 1, 12 if tier == "quick" else 60):
                 if h["deadlock"] or h["errors"]:
                     continue
-                # the scenario as the algorithm sees it: state after the setup operations
-                ex0 = _Exec(comp, cfg, setup, programs)
-                b = ex0.obj
+                # the scenario as the algorithm sees it: the trace spec applies the setup
+                # operations to the sequential model to obtain the initial state
                 if comp == "breaker":
-                    init = {"st": STATE[b.state.value],
-                            "openedAt": -1 if b._opened_at is None else _ticks(b._opened_at),
-                            "probe": bool(b._probe_in_flight),
-                            "fails": [_ticks(x) for x in b._failures]}
                     sc = {"cfg": {"thr": cfg["thr"], "W": cfg["W"], "R": cfg["R"], "trip": cfg["trip"]},
-                          "init": init, "clock": programs[0][0]["t"],
+                          "setup": [{"op": o["op"], "k": o.get("k", "-"), "t": o["t"]} for o in setup],
+                          "clock": programs[0][0]["t"],
                           "prog": [{"op": p[0]["op"], "k": p[0]["k"]} for p in programs]}
                 else:
                     sc = {"cfg": {"max": cfg["max"], "W": cfg["W"]},
-                          "init": [_ticks(x) for x in b._events], "clock": programs[0][0]["t"],
+                          "setup": [{"op": o["op"], "cost": o.get("cost", 0), "t": o["t"]} for o in setup],
+                          "clock": programs[0][0]["t"],
                           "prog": [{"op": p[0]["op"], "cost": p[0].get("cost", 0)} for p in programs]}
                 vtime.set_active(None)
                 traces.append({"sc": sc, "lines": h["lines"], "program": name})
